@@ -71,12 +71,16 @@ class Ctx:
         self.stubs: Dict[str, Any] = {}  # fake-stream remote stubs by sid
         self.rt = scn.get("rt")  # real-time configuration or None
         self.rt_t0 = 0.0
+        if self.rt:
+            # the trace measures wall-clock time in ticks of 1/1024 simulation STEP (rt_factor * time_resolution seconds), so
+            # that runs with very small or very large factors are observed with the same resolution
+            self.TICKS_PER_SECOND = 1024.0 / (self.rt["rt_factor"] * self.rt.get("time_resolution", 1.0))
         self.faults: List[dict] = []  # planned faults (harness/faults)
 
     TICKS_PER_SECOND = 1024
 
     def ticks(self):
-        """Virtual wall clock since the start of run(), in ticks of 1/1024 s."""
+        """Virtual wall clock since the start of run(), in ticks of 1/1024 simulation step."""
         return int((self.loop.time() - self.rt_t0) * self.TICKS_PER_SECOND)
 
     def deliver_now(self, sid):
@@ -164,7 +168,7 @@ class AsyncProxy(BaseProxy):
                 ctx.nstep[self.sid] = ctx.nstep.get(self.sid, 0) + 1
                 t, inputs, m = args
                 ctx.steptime[self.sid] = t
-                ev = {"k": "SB", "s": self.sid, "t": t, "m": m, "inp": _inp_list(inputs)}
+                ev = {"k": "SB", "s": self.sid, "t": _enc_time(t), "m": _enc_time(m), "inp": _inp_list(inputs)}
                 if ctx.rt is not None:
                     ev["w"] = ctx.ticks()
                 ctx.record(ev)
@@ -215,6 +219,12 @@ class AsyncProxy(BaseProxy):
 
     async def stop(self):
         self.ctx.record({"k": "STOP", "s": self.sid})
+
+
+def _enc_time(t):
+    """The time of a step request for the trace: mosaik only ever asks for integer times; anything else (a change let a
+    malformed next-step value through) is recorded as the impossible time -999, which no demand of the reference matches."""
+    return t if isinstance(t, int) and not isinstance(t, bool) and abs(t) < 10**9 else -999
 
 
 def _enc_next(res):
@@ -352,6 +362,13 @@ def build_world(ctx: Ctx, loop, world_kw=None, connect_order=None):
         if c["async"]:
             ckw["async_requests"] = True
         pairs = [(g["sa"], g["da"]) for g in group if g["sa"]]
+        if scn.get("connect_one") and len(pairs) == 1 and not c["async"] and hasattr(world, "connect_one"):
+            # the public single-pair method World.connect_one (the project's own tests call it directly)
+            kw1 = {k: v for k, v in ckw.items() if k in ("time_shifted", "weak")}
+            if c["init"]:
+                kw1["initial_data"] = c["init"]
+            world.connect_one(ents[c["src"]][int(c["se"][1:])], ents[c["dst"]][int(c["de"][1:])], c["sa"], c["da"], **kw1)
+            continue
         world.connect(ents[c["src"]][int(c["se"][1:])], ents[c["dst"]][int(c["de"][1:])], *pairs, **ckw)
     for c in conns:
         if c["sa"]:
@@ -497,18 +514,18 @@ def execute(scn: dict, behaviour, policy, run_kw=None, world_kw=None, connect_or
                 kw["rt_strict"] = bool(rt.get("strict"))
                 reads = [0]
                 exact = bool(rt.get("exact_clock"))
+                step_s = rt["rt_factor"] * rt.get("time_resolution", 1.0)
 
                 def clock():
                     # a real perf_counter is strictly increasing between reads
                     reads[0] += 1
-                    return loop.time() + (0 if exact else reads[0] * 2.0 ** -30)
+                    return loop.time() + (0 if exact else reads[0] * step_s * 2.0 ** -30)
 
                 saved = _sched.perf_counter
                 _sched.perf_counter = clock
                 restore.append(lambda: setattr(_sched, "perf_counter", saved))
                 ctx.rt_t0 = loop.time()
                 # external events: set_event(t) called from outside a step at a chosen wall-clock time (at = eighths of a step)
-                step_s = rt["rt_factor"] * rt.get("time_resolution", 1.0)
                 for x in rt.get("external", []):
                     def fire(x=x):
                         pr = ctx.proxies.get(x["sid"])
